@@ -238,12 +238,57 @@ fn matches_equal(eg: &EGraph<A, ConstFold>, rules: &[RuleJ]) -> bool {
     true
 }
 
+/// C04 on rewriting runs: the instances (left side, right side) of every rule that are matched in the state BEFORE
+/// apply_rewrites is called; afterwards each right side must be represented and equal to its left side.
+/// Rules whose right side is a substitution form are left out (their instance is not a pattern instance).
+fn pre_instances(eg: &EGraph<A, ConstFold>, rules: &[RuleJ]) -> Vec<(String, RecExpr<A>, RecExpr<A>)> {
+    let reps = representatives(eg);
+    let mut out = Vec::new();
+    for r in rules {
+        if pat_text(&r.r).contains(":=") { continue; }
+        let (Ok(lp), Ok(rp)) = (Pattern::<A>::parse(&pat_text(&r.l)), Pattern::<A>::parse(&pat_text(&r.r))) else { continue };
+        for sb in ematch_all(eg, &lp) {
+            if !r.cond.is_empty() {
+                let slot = Slot::named(&rule_slot(r.cond[0].as_u64().unwrap() as u32));
+                let var = r.cond[1].as_str().unwrap()[1..].to_string();
+                if sb[&var].slots().contains(&slot) { continue; }
+            }
+            let (Some(lt), Some(rt)) = (instantiate(&lp, &sb, &reps), instantiate(&rp, &sb, &reps)) else { continue };
+            if lookup_rec_expr(&lt, eg).is_none() { continue; }   // C05 reports that
+            out.push((r.name.clone(), lt, rt));
+            if out.len() >= 400 { return out; }
+        }
+    }
+    out
+}
+
+/// the scope of C04: no class has a redundant slot (an e-node that mentions a slot its class does not have)
+fn no_redundant_slot(eg: &EGraph<A, ConstFold>) -> bool {
+    eg.ids().into_iter().all(|id| { let cs = eg.slots(id); eg.enodes(id).iter().all(|n| n.slots().is_subset(&cs)) })
+}
+
+fn unfired(eg: &EGraph<A, ConstFold>, pre: &[(String, RecExpr<A>, RecExpr<A>)]) -> Vec<String> {
+    pre.iter().filter(|(_, lt, rt)| match (lookup_rec_expr(lt, eg), lookup_rec_expr(rt, eg)) {
+        (Some(a), Some(b)) => !eg.eq(&a, &b),
+        _ => true,
+    }).map(|(n, lt, rt)| format!("{n}: {lt} => {rt}")).collect()
+}
+
 /// (start term, rules, entry point, ExtractionSubst)
 const FIXED: &[(&str, &[&str], &str, bool, usize)] = &[
     // explanations build: add_syn left pending work behind, Extractor::new (ExtractionSubst) panicked
     ("(let $1 (mul (add (add (mul 0 (var $2)) (mul 0 (var $1))) (mul (var $3) 2)) (add (add 1 (var $2)) (add 2 (var $3)))) (mul (sum $1 (var $1)) (add (sum $1 (var $3)) (add 1 (var $3)))))",
      &["let-subst", "distr", "let-add", "let-sum", "let-var", "sum-pull", "sum-const", "pull-in", "sum-swap", "mul0-var", "let-const"], "runner", true, 3),
     ("(let $1 (mul (mul 0 (var $1)) (add 1 (var $1))) 2)", &["let-subst", "distr", "let-add", "mul0-var"], "manual", true, 3),
+    // b[x := x+1] where the e-graph has learnt (x+1)+2 = x (p = 3): the subterm x+2 of b becomes equal to x only AFTER
+    // its own x was replaced; it must not be taken for an occurrence of x (D17), under both substitution methods
+    ("(sum $1 (mul (add (var $1) 2) (mul (var $1) (var $1))))", &["sum-shift", "assoc-add", "add-p"], "manual", true, 3),
+    ("(sum $1 (mul (add (var $1) 2) (mul (var $1) (var $1))))", &["sum-shift", "assoc-add", "add-p"], "manual", false, 3),
+    ("(sum $1 (mul (mul 2 (var $1)) (add (var $1) 1)))", &["sum-scale", "assoc-mul", "mul-1", "comm-mul"], "runner", false, 3),
+    // all searchers run before any applier: the first rule makes the class of (mul x 0) slot-free, the second rule's instance
+    // (matched in the state before the call) must still be rewritten in the same pass
+    ("(add (mul (var $1) 0) (mul (var $1) 0))", &["mul-0", "add-mul0"], "manual", false, 1),
+    ("(add (mul (add (var $1) (var $2)) 0) (mul (add (var $1) (var $2)) 0))", &["mul-0", "comm-add", "add-mul0"], "manual", true, 1),
     ("(let $1 (mul (mul 0 (var $1)) (add 1 (var $2))) 2)", &["let-subst", "distr", "let-add", "mul0-var"], "eqsat", true, 3),
     // symmetry groups with a stabiliser chain of depth 3 (S4 on the four variables), discovered piecemeal by
     // late iterations that change nothing else: the progress measure must see them
@@ -285,7 +330,8 @@ fn staged_symmetry_runs(out: &mut Vec<Value>) {
                     let before = fp(&eg);
                     let ret = apply_rewrites(&mut eg, &rws);
                     let after = fp(&eg);
-                    evs.push(json!({"ev":"rewrite","ret":ret,"fp_changed":before != after,"nodes":eg.total_number_of_nodes()}));
+                    evs.push(json!({"ev":"rewrite","ret":ret,"fp_changed":before != after,"nodes":eg.total_number_of_nodes(),
+                                    "in_scope":false,"pre_matches":0,"unfired":0,"first_unfired":""}));
                 }
             }
             evs
@@ -375,9 +421,13 @@ fn main() {
                 if late_rules { late_rule_slots(&eg, late_seed); rws = rules2.iter().map(mk_rule).collect(); }
                 for _ in 0..=iter_limit {
                     let before = fingerprint(&eg, &tracked);
+                    let in_scope = no_redundant_slot(&eg);
+                    let pre = pre_instances(&eg, &rules2);
                     let ret = apply_rewrites(&mut eg, &rws);
                     let after = fingerprint(&eg, &tracked);
-                    evs.push(json!({"ev":"rewrite","ret":ret,"fp_changed":before != after,"nodes":eg.total_number_of_nodes()}));
+                    let uf = unfired(&eg, &pre);
+                    evs.push(json!({"ev":"rewrite","ret":ret,"fp_changed":before != after,"nodes":eg.total_number_of_nodes(),
+                                    "in_scope":in_scope,"pre_matches":pre.len(),"unfired":uf.len(),"first_unfired":uf.first().cloned().unwrap_or_default()}));
                     if eg.total_number_of_nodes() > 60 { break; }
                 }
                 dump_events(&eg, &start, &root, &mut evs);
